@@ -526,9 +526,10 @@ class Session:
             try:
                 if self.sdef.get('cache_templates') or k == 'Pc':
                     # statement cache: parse once per text, hand out copies
-                    tpl = self.templates.get(sql)
+                    dkey = (self.cur.get('d', 'mindsdb'), sql)       # a statement cache is per (dialect, text)
+                    tpl = self.templates.get(dkey)
                     if tpl is None:
-                        tpl = self.templates[sql] = parse_sql(sql, dialect=self.cur.get('d', 'mindsdb'))
+                        tpl = self.templates[dkey] = parse_sql(sql, dialect=self.cur.get('d', 'mindsdb'))
                     ast = tpl.copy()
                 else:
                     ast = parse_sql(sql, dialect=self.cur.get('d', 'mindsdb'))
